@@ -20,7 +20,8 @@ RULE = (
     "cases = (operation, backend flavour in {ndarray, xr.DataArray, xr.Dataset}, 1-6 argument arrays of 0-3 dims with sizes 1-4, "
     "dtype in {int64, float64, float32, int8, uint8, int16, bool; narrow integers scaled so that sums/products overflow the input dtype}, axis/dim argument (integer axes also in negative form), take indices (int, list, negative), stack axis, concat "
     "axis, and for every function the library marks batchable (enumerated from Backend by reflection) every ordered partition of "
-    "2-6 arguments into >=2 consecutive batches); oracle = NumPy on the raw data; non-trivial = >=3 arguments with >=2 different "
+    "2-6 arguments into >=2 consecutive batches; kind refill: a multi-argument reduction, its operands refilled in place with other "
+    "data, the same reduction again on the same objects; xarray stacks with the axis in negative form too); oracle = NumPy on the raw data; non-trivial = >=3 arguments with >=2 different "
     "values, or a batch partition with unequal batch sizes, or an axis/dim argument that is not the first axis; distinct = "
     "fingerprint of the case"
 )
